@@ -1,6 +1,11 @@
 import Model.Engine.Base
 /-! Component `Floor` (C02): account locks held from before the balances are read until the log is persisted, so that
-at its position in the log every accepted transaction's sources hold what the script was run against. -/
+at its position in the log every accepted transaction's sources hold what the script was run against.
+
+Two clauses exist for the invariant (`Lemmas/EngineFloor.lean`, J7 (c) "a recorded read of a write-locked account is
+current for durable ++ pending"): a request does not read balances while its own log is still queued (the store would
+answer without it), and a commit consumes the committer's recorded reads (they are stale once its own postings are in
+the log; a further commit needs fresh ones). -/
 namespace Engine.Floor
 open Engine
 
